@@ -136,7 +136,14 @@ def pair_programs(asm, rep, tier, rnd):
             val = None      # label offset, filled below
         elif how == 3:
             base = rnd.randrange(0, M32) & ~1
-            expr = '%position(L, {})'.format(hex(base))
+            btxt = hex(base)
+            if rnd.random() < 0.4:
+                # the base written as an expression whose top operator binds looser than label + base
+                a, op, b = rnd.choice([(0x20000000, '|', 0x400), (1, '<<', 11), (3, '<<', 12), (0x40021000, '^', 0x1000), (0xfff000, '&', 0xff800),
+                                       (0x80000000, '>>', 3), (0x08000000, '|', 0x7fe)])
+                btxt = '{} {} {}'.format(hex(a), op, b if op in ('<<', '>>') else hex(b))
+                base = {'|': a | b, '^': a ^ b, '&': a & b, '<<': a << b, '>>': a >> b}[op]
+            expr = '%position(L, {})'.format(btxt)
             val = None
         else:
             # parentheses that decide the value: dropping or moving any of them changes it
